@@ -123,6 +123,13 @@ def run(ctx: Ctx) -> int:
             shutil.rmtree(case._pkg, ignore_errors=True)
             return {"skip": "refused"}
         n = len(case.events)
+        job_why = None
+        if case.backend == "atlas":
+            # the other half of the job: what the rendered job options ask EventLoop to do (an extra algorithm, an event
+            # limit, a duplicate filter would make the rows of an event depend on its neighbours)
+            from .. import jobopts
+            from ..core import PY
+            job_why = jobopts.judge_plain_job(jobopts.job_trace(Path(case._pkg) / "ATestRun_eljob.py", PY))
         R = ctx.rng("perm", case.query)
         lists = [list(range(n))]
         for _ in range(3):
@@ -147,7 +154,7 @@ def run(ctx: Ctx) -> int:
                 bad = {"event": k, "observations": [(("full" if li == 0 else f"perm{li}" if li < 4 else f"split{li - 3}" if li < 6 else "singleton"), str(o)[:300]) for li, o in obs][:8]}
                 break
         nrows = sum(len(e["rows"]) for e in br["runs"][0]["events"].values())
-        return {"bad": bad, "runs": len(lists), "rows_full": nrows, "events_ok": sum(1 for e in br["runs"][0]["events"].values() if e["status"] == "OK"),
+        return {"bad": bad, "job_why": job_why, "job_traced": case.backend == "atlas", "runs": len(lists), "rows_full": nrows, "events_ok": sum(1 for e in br["runs"][0]["events"].values() if e["status"] == "OK"),
                 "events_fault": sum(1 for e in br["runs"][0]["events"].values() if e["status"] != "OK")}
     results = parallel_map(work, list(zip(all_cases, trs)))
     for case, r in zip(all_cases, results):
@@ -160,7 +167,11 @@ def run(ctx: Ctx) -> int:
         ctx.count("rows_in_full_runs", r["rows_full"])
         ctx.count("events_ok_in_full_runs", r["events_ok"])
         ctx.count("events_faulting_in_full_runs", r["events_fault"])
-        if r["bad"]:
+        if r.get("job_traced"):
+            ctx.count("job_option_scripts_executed_against_recording_eventloop")
+        if r.get("job_why"):
+            ctx.violation(case.replay(), f"[{case.backend}] job options: {r['job_why']} :: {case.query[:200]}")
+        elif r["bad"]:
             rep = case.replay()
             ctx.violation(rep, f"[{case.backend}] rows of event {r['bad']['event']} depend on the other events of the job: {r['bad']['observations']} :: {case.query[:300]}")
         else:
